@@ -59,6 +59,12 @@ func expandC20(_ *testing.T, seed uint64, tier string) []*core.Plan {
 	}
 	p.Items = append(p.Items, it)
 	n := r.Range(0, 7)
+	if r.Chance(1, 4) {
+		// few subscribe tokens and a longer run of requests: every SUBACK and
+		// UNSUBACK must give its token back, or later requests go unanswered
+		p.SetKnob("parsub", r.Pick(1, 2, 3))
+		n = r.Range(6, 16)
+	}
 	for i := 0; i < n; i++ {
 		ty := 1 + r.Intn(14)
 		if r.Chance(2, 3) {
@@ -155,7 +161,7 @@ func runC20(t *testing.T, p *core.Plan) *core.Result {
 	res := &core.Result{Check: "C20", Seed: p.Seed}
 	cfg := DefaultConfig()
 	cfg.Chunk = p.Knob("chunk", 0)
-	cfg.ParPublishes, cfg.ParSubscribes = 64, 64
+	cfg.ParPublishes, cfg.ParSubscribes = 64, p.Knob("parsub", 64)
 	creds := p.Knob("creds", 1) == 1
 	if creds {
 		cfg.Credentials = map[string]string{"u1": "u1-pw"}
